@@ -1,0 +1,194 @@
+//go:build verif
+
+package ptrace
+
+// Contracts for gocv (see /verif/DESIGN.md). Comment-only; compiled only with
+// the build tag "verif".
+//
+// C02: which (directory descriptor, path register) pair and which access class the
+// handler presents to the policy for every path-taking system call it decodes. The
+// vocabulary (ghost query log Q, kres = the kernel's rule for a (dirfd, pathname)
+// pair, tstr = the string in the tracee) is in /verif/spec/policy_Q.contracts.
+
+//@ func runner/ptrace.(*tracerHandler).Debug
+//@   assumed "writes to stderr only"
+//@   pure
+
+// ---- which base directory a name is resolved from ----
+
+//@ func runner/ptrace.getProcCwd
+//@   trusted "readlink /proc/pid/cwd"
+//@   pure
+//@   ensures result == cwdof(pid)
+
+//@ func runner/ptrace.getProcFd
+//@   trusted "readlink /proc/pid/fd/n, then the same walk as any other path"
+//@   pure
+//@   ensures result == fdpath(pid, fd)
+
+// the symlink walk itself reads the file system: decided by a bounded stand-in (DESIGN C02)
+//@ func runner/ptrace.resolveTraceePath
+//@   trusted "symlink walk below /proc/pid/root; compared with the kernel by the bounded check C02/resolver"
+//@   pure
+//@   ensures len(base) != 0 ==> result == rres(pid, base, p)
+//@   ensures len(base) == 0 ==> result == rres(pid, cwdof(pid), p)
+
+//@ func runner/ptrace.absPath props C02
+//@   arith int
+//@   assigns nothing
+//@   ensures result == kres(pid, -100, p)
+
+//@ func runner/ptrace.absPathAt props C02
+//@   arith int
+//@   assigns nothing
+//@   ensures result == kres(pid, dirfd, p)
+
+//@ func runner/ptrace.(*tracerHandler).getString props C02
+//@   arith int
+//@   requires ctx != nil
+//@   assigns ptracer.UseVMReadv
+//@   ensures result == kres(ctx.Pid, -100, tstr(ctx.Pid, uint64(addr)))
+
+//@ func runner/ptrace.(*tracerHandler).getStringAt props C02
+//@   arith int
+//@   requires ctx != nil
+//@   assigns ptracer.UseVMReadv
+//@   ensures result == kres(ctx.Pid, dirfd, tstr(ctx.Pid, uint64(addr)))
+
+// ---- procfs policy ----
+
+//@ func runner/ptrace.isAllowedProcAlias props C02 C15
+//@   arith int
+//@   assigns nothing
+//@   abstracts result == palias(pid, path)
+
+//@ func runner/ptrace.isDangerousProcPath props C02 C15
+//@   arith int
+//@   assigns nothing
+//@   abstracts result == pdanger(path)
+
+//@ func runner/ptrace.(*tracerHandler).checkProcPath props C02
+//@   arith int
+//@   requires h != nil && h.Handler != nil
+//@   assigns Q.n, Q.class, Q.path, Q.pclass, Q.ppath
+//@   ensures result.0 == procblk(pid, path)
+//@   ensures !result.0 ==> Q.n == old(Q.n) && Q.class == old(Q.class) && Q.path == old(Q.path) && Q.pclass == old(Q.pclass) && Q.ppath == old(Q.ppath)
+//@   ensures result.0 ==> Q.n == old(Q.n) + 1 && Q.class == 4 && Q.path == "procfs-path" && Q.pclass == old(Q.class) && Q.ppath == old(Q.path)
+
+// asked(cls, p): exactly one query was made, about p with class cls (or the procfs policy when p is a procfs reference)
+//@ macro asked(cls, p) = Q.n == old(Q.n) + 1 && Q.pclass == old(Q.class) && Q.ppath == old(Q.path) && ite(procblk(ctx.Pid, p), Q.class == 4 && Q.path == "procfs-path", Q.class == cls && Q.path == p)
+//@ macro kp(dirfd, addr) = kres(ctx.Pid, dirfd, tstr(ctx.Pid, uint64(addr)))
+
+//@ func runner/ptrace.isOpenReadOnly props C02
+//@   arith int
+//@   assigns nothing
+//@   ensures canmodify(flags) ==> !result
+
+//@ func runner/ptrace.getFileMode
+//@   arith int
+//@   assigns nothing
+
+//@ func runner/ptrace.readOpenHowFlags
+//@   trusted "PTRACE_PEEKDATA of the first 8 bytes of struct open_how, native byte order"
+//@   pure
+//@   ensures result.1 == nil ==> result.0 == openhow_flags(pid, uint64(howAddr))
+
+//@ func runner/ptrace.(*tracerHandler).checkOpen props C02
+//@   arith int
+//@   requires h != nil && h.Handler != nil && ctx != nil
+//@   assigns ptracer.UseVMReadv, Q.n, Q.class, Q.path, Q.pclass, Q.ppath
+//@   ensures asked(ite(canmodify(uint64(flags)), 2, Q.class), kp(-100, addr)) && (Q.class == 1 || Q.class == 2 || Q.class == 4)
+
+//@ func runner/ptrace.(*tracerHandler).checkOpenAt props C02
+//@   arith int
+//@   requires h != nil && h.Handler != nil && ctx != nil
+//@   assigns ptracer.UseVMReadv, Q.n, Q.class, Q.path, Q.pclass, Q.ppath
+//@   ensures asked(ite(canmodify(uint64(flags)), 2, Q.class), kp(dirfd, addr)) && (Q.class == 1 || Q.class == 2 || Q.class == 4)
+
+// open_how unreadable: classified as a write
+//@ func runner/ptrace.(*tracerHandler).checkOpenAt2 props C02
+//@   arith int
+//@   requires h != nil && h.Handler != nil && ctx != nil
+//@   assigns ptracer.UseVMReadv, Q.n, Q.class, Q.path, Q.pclass, Q.ppath
+//@   ensures asked(Q.class, kp(dirfd, addr)) && (Q.class == 1 || Q.class == 2 || Q.class == 4)
+//@   ensures Q.class == 1 ==> !canmodify(openhow_flags(ctx.Pid, uint64(howAddr)))
+
+//@ func runner/ptrace.(*tracerHandler).checkRead props C02
+//@   arith int
+//@   requires h != nil && h.Handler != nil && ctx != nil
+//@   assigns ptracer.UseVMReadv, Q.n, Q.class, Q.path, Q.pclass, Q.ppath
+//@   ensures asked(1, kp(-100, addr))
+//@ func runner/ptrace.(*tracerHandler).checkReadAt props C02
+//@   arith int
+//@   requires h != nil && h.Handler != nil && ctx != nil
+//@   assigns ptracer.UseVMReadv, Q.n, Q.class, Q.path, Q.pclass, Q.ppath
+//@   ensures asked(1, kp(dirfd, addr))
+//@ func runner/ptrace.(*tracerHandler).checkWrite props C02
+//@   arith int
+//@   requires h != nil && h.Handler != nil && ctx != nil
+//@   assigns ptracer.UseVMReadv, Q.n, Q.class, Q.path, Q.pclass, Q.ppath
+//@   ensures asked(2, kp(-100, addr))
+//@ func runner/ptrace.(*tracerHandler).checkWriteAt props C02
+//@   arith int
+//@   requires h != nil && h.Handler != nil && ctx != nil
+//@   assigns ptracer.UseVMReadv, Q.n, Q.class, Q.path, Q.pclass, Q.ppath
+//@   ensures asked(2, kp(dirfd, addr))
+//@ func runner/ptrace.(*tracerHandler).checkStat props C02
+//@   arith int
+//@   requires h != nil && h.Handler != nil && ctx != nil
+//@   assigns ptracer.UseVMReadv, Q.n, Q.class, Q.path, Q.pclass, Q.ppath
+//@   ensures asked(3, kp(-100, addr))
+//@ func runner/ptrace.(*tracerHandler).checkStatAt props C02
+//@   arith int
+//@   requires h != nil && h.Handler != nil && ctx != nil
+//@   assigns ptracer.UseVMReadv, Q.n, Q.class, Q.path, Q.pclass, Q.ppath
+//@   ensures asked(3, kp(dirfd, addr))
+
+//@ func runner/ptrace.combineTraceActions props C03
+//@   arith int
+//@   requires len(actions) == 2
+//@   assigns nothing
+//@   ensures (result == ptracer.TraceKill) == (actions[0] == ptracer.TraceKill || actions[1] == ptracer.TraceKill)
+//@   ensures (result == ptracer.TraceAllow) == (actions[0] != ptracer.TraceKill && actions[1] != ptracer.TraceKill && actions[0] != ptracer.TraceBan && actions[1] != ptracer.TraceBan)
+//@   ensures result == ptracer.TraceAllow || result == ptracer.TraceBan || result == ptracer.TraceKill
+//@   loop 0: invariant -1 <= rangeindex && rangeindex < len(actions) && (combined == ptracer.TraceAllow || combined == ptracer.TraceBan)
+//@   loop 0: invariant forall k int :: 0 <= k && k <= rangeindex ==> actions[k] != ptracer.TraceKill
+//@   loop 0: invariant (combined == ptracer.TraceBan) == (exists k int :: 0 <= k && k <= rangeindex && actions[k] == ptracer.TraceBan)
+
+//@ func runner/ptrace.softBanSyscall props C03
+//@   arith int
+//@   requires ctx != nil
+//@   assigns ctx.regs.Rax
+//@   ensures result == ptracer.TraceBan && ctx.regs.Rax == uint64(-int(BanRet))
+
+// The decode table. dirfd registers are read the way the kernel reads them: as a C int (low 32
+// bits, sign-extended), so every register encoding of AT_FDCWD means the cwd.
+//@ macro dfd(r) = int(int32(r))
+//@ macro one(cls, dirfd, addr) = asked(cls, kp(dirfd, addr))
+//@ macro two(cls, d1, a1, d2, a2) = Q.n == old(Q.n) + 2 && ite(procblk(ctx.Pid, kp(d1, a1)), Q.pclass == 4 && Q.ppath == "procfs-path", Q.pclass == cls && Q.ppath == kp(d1, a1)) && ite(procblk(ctx.Pid, kp(d2, a2)), Q.class == 4 && Q.path == "procfs-path", Q.class == cls && Q.path == kp(d2, a2))
+//@ macro nm() = scname(ctx.regs.Orig_rax)
+//@ macro rdi() = ctx.regs.Rdi
+//@ macro rsi() = ctx.regs.Rsi
+//@ macro rdx() = ctx.regs.Rdx
+//@ macro r10() = ctx.regs.R10
+
+//@ func runner/ptrace.(*tracerHandler).Handle props C02 C03
+//@   arith int
+//@   requires h != nil && h.Handler != nil && ctx != nil
+//@   assigns ptracer.UseVMReadv, ctx.regs.Rax, Q.n, Q.class, Q.path, Q.pclass, Q.ppath
+//@   ensures @C03 result == ptracer.TraceAllow || result == ptracer.TraceBan || result == ptracer.TraceKill
+//@   ensures @C03 result == ptracer.TraceBan ==> ctx.regs.Rax == uint64(-int(BanRet))
+//@   ensures @C03 result != ptracer.TraceBan ==> ctx.regs.Rax == old(ctx.regs.Rax)
+//@   ensures @C03 !scvalid(ctx.regs.Orig_rax) ==> result == ptracer.TraceKill && Q.n == old(Q.n)
+//@   ensures @C02 scvalid(ctx.regs.Orig_rax) && nm() == "open" ==> one(ite(canmodify(rsi()), 2, Q.class), -100, rdi()) && (Q.class == 1 || Q.class == 2 || Q.class == 4)
+//@   ensures @C02 scvalid(ctx.regs.Orig_rax) && nm() == "openat" ==> one(ite(canmodify(rdx()), 2, Q.class), dfd(rdi()), rsi()) && (Q.class == 1 || Q.class == 2 || Q.class == 4)
+//@   ensures @C02 scvalid(ctx.regs.Orig_rax) && nm() == "openat2" ==> one(Q.class, dfd(rdi()), rsi()) && (Q.class == 1 || Q.class == 2 || Q.class == 4) && (Q.class == 1 ==> !canmodify(openhow_flags(ctx.Pid, rdx())))
+//@   ensures @C02 scvalid(ctx.regs.Orig_rax) && (nm() == "readlink" || nm() == "execve") ==> one(1, -100, rdi())
+//@   ensures @C02 scvalid(ctx.regs.Orig_rax) && (nm() == "readlinkat" || nm() == "execveat") ==> one(1, dfd(rdi()), rsi())
+//@   ensures @C02 scvalid(ctx.regs.Orig_rax) && (nm() == "unlink" || nm() == "chmod") ==> one(2, -100, rdi())
+//@   ensures @C02 scvalid(ctx.regs.Orig_rax) && (nm() == "unlinkat" || nm() == "mkdirat" || nm() == "mknodat" || nm() == "fchmodat" || nm() == "fchmodat2") ==> one(2, dfd(rdi()), rsi())
+//@   ensures @C02 scvalid(ctx.regs.Orig_rax) && nm() == "symlinkat" ==> one(2, dfd(rsi()), rdx())
+//@   ensures @C02 scvalid(ctx.regs.Orig_rax) && (nm() == "linkat" || nm() == "renameat" || nm() == "renameat2") ==> two(2, dfd(rdi()), rsi(), dfd(rdx()), r10())
+//@   ensures @C02 scvalid(ctx.regs.Orig_rax) && nm() == "rename" ==> two(2, -100, rdi(), -100, rsi())
+//@   ensures @C02 scvalid(ctx.regs.Orig_rax) && (nm() == "access" || nm() == "stat" || nm() == "stat64" || nm() == "lstat" || nm() == "lstat64") ==> one(3, -100, rdi())
+//@   ensures @C02 scvalid(ctx.regs.Orig_rax) && (nm() == "faccessat" || nm() == "faccessat2" || nm() == "statx" || nm() == "fstatat" || nm() == "fstatat64" || nm() == "newfstatat") ==> one(3, dfd(rdi()), rsi())
